@@ -7,6 +7,7 @@
 -/
 import GormModel.Lemmas.Where
 import GormModel.Lemmas.StmtReuse
+import GormModel.Lemmas.SchemaParse
 import GormModel.Props.C02
 namespace Gorm
 
